@@ -49,7 +49,8 @@ def _case_key(case) -> str:
     return hashlib.sha256(json.dumps(case, sort_keys=True, default=str).encode()).hexdigest()[:16]
 
 
-def _run_case(sl, case, model, timeout=CASE_TIMEOUT_S):
+def _run_case(sl, case, model, timeout=None):
+    timeout = timeout or getattr(sl, "case_timeout", CASE_TIMEOUT_S)
     try:
         return with_timeout(timeout, sl.run, case, model)
     except CaseTimeout:
@@ -191,7 +192,7 @@ def run_slice(sl: Slice, seed: int, n: int, tier: str, procs: int, cases=None):
                     else:
                         done += 1
                 continue
-            if now - prog[1] > HANG_LIMIT_S:
+            if now - prog[1] > max(HANG_LIMIT_S, 5 * getattr(sl, "case_timeout", 0)):
                 pos = int(prog[0])
                 p.terminate()
                 p.join(5)
